@@ -51,13 +51,25 @@ def run_one(pid: str, tier: str, seed: int) -> int:
         rep.disagreement({"build_error": build.get("error", "unknown")})
         return rep.finish(common.proof_status(pid, build))
     mod = importlib.import_module(f"harness.props.{pid.lower()}")
-    model = common.Model()
-    try:
-        if gen is not None:
-            rep.gen = gen
-        extra = mod.run(tier, seed, rep, model) or {}
-    finally:
-        model.close()
+    stalled: list[str] = []
+    for attempt in range(3):
+        model = common.Model()
+        try:
+            if gen is not None:
+                rep.gen = gen
+            extra = mod.run(tier, seed + 7919 * attempt, rep, model) or {}
+            break
+        except common.ModelStalled as e:
+            # safety net behind the generators' resource bound (DESIGN 10): nothing was decided about that input by either side;
+            # start over with other generated inputs and say so in the evidence
+            stalled.append(str(e))
+            notes = rep.notes
+            rep = common.Report(pid, tier, seed)
+            rep.notes = notes + [f"inputs generated for seed {seed + 7919 * attempt} were abandoned: {e}"]
+            if attempt == 2:
+                raise
+        finally:
+            model.close()
     return rep.finish(common.proof_status(pid, build), extra)
 
 
